@@ -72,7 +72,9 @@ def configs_for(prop, tier):
 
 _COMMON = ('Verdicts are TLC verdicts: every recorded call of the real library (driver rebuilt from /repo, several compiler/optimisation/'
            'standard configurations) is one step of the trace specification spec/FxTrace.tla and is judged by the property\'s predicate; a '
-           'rejection is re-run from a replay file before it is reported. ')
+           'rejection is re-run from a replay file before it is reported. Inputs come from TLC (landmarks, solved boundaries, programs) and, for the '
+           'same call shapes, from a coverage-guided search over the library as it is in the working tree (libFuzzer target of the same driver; it only '
+           'proposes operands, every proposal is replayed and judged by TLC). ')
 _NOTE = ('Trusted: TLC 1.8 with BigInteger overrides for wide integers (self-tested against their TLA+ definitions), the driver recording what the '
          'library returned, g++ 12 / clang++ 14 as the compilers users build with, the rational enclosures of spec/FxReal.tla (pi checked against '
          'Machin inside the spec). Exhaustive only where stated; otherwise boundary-directed (operands solved from the contract\'s own case '
@@ -92,7 +94,8 @@ MANIFEST_TEXT = {
     'C02': _mt('Model: TLC, all pairs and all scalar types at reduced width. Code: landmark pairs, second operands solved so that the raw product sits on '
                '+-2^63 and on max*2^16 +- 1, operand pairs whose bit lengths add up to 62..65, all ten integral scalar types (incl. long long / unsigned '
                'long long) at their limits, both operand orders, compound forms, three call sites.'),
-    'C03': _mt('Model: TLC, all pairs at reduced width (finds the INT_MIN/-1 trap pattern and the lost-bits region on the original code). Code: dividends '
+    'C03': _mt('Model: TLC, all pairs at reduced width (finds the INT_MIN/-1 trap pattern and the lost-bits region on the original code). "No operand '
+               'combination raises SIGFPE" is judged on every division event, NaN sentinels and the lowest raw word included. Code: dividends '
                'around 2^31, 2^46, 2^47 against small/large divisors, all integral divisor types at their limits; SIGFPE is caught by the driver and '
                'recorded as an event (trap field), so a trap is a rejected event, not a lost trace.'),
     'C04': _mt('Model: TLC at reduced width, every value of every reduced type; Apalache proves both directions at 64 bits. Code: every value of the 8-bit '
